@@ -218,7 +218,9 @@ theorem decodeKind_rejects (k : Kind) (d : DVal) (v : Val) (h : accepts k v = fa
   cases k <;> cases v <;> simp_all [accepts, decodeKind]
 
 theorem decodeScalar_nonstring (cast : Kind → Str → Option Val) (fl : Flags) (env : Env) (k : Kind) (d : DVal) (v : Val)
-    (hs : ∀ s, v ≠ .str s) : decodeScalarWith cast fl env k d v = decodeKind k d v := by
+    (hs : ∀ s, v ≠ .str s) :
+    decodeScalarWith cast fl env k d v =
+      if fl.wholeNumbers && intKind k && fractional v then R.fail d .type else decodeKind k d v := by
   cases v <;> simp_all [decodeScalarWith]
 
 theorem decodeScalar_plain (cast : Kind → Str → Option Val) (fl : Flags) (env : Env) (k : Kind) (d : DVal) (s : Str)
